@@ -380,13 +380,43 @@ func ruleP02Range(p *Prog, r *Report) {
 	}
 	// MidnightOffset: per guard IsYesterday / IsTomorrow / neither
 	seen := map[string]bool{}
+	type offRow struct {
+		m      *Poly
+		guards []Guard
+		ret    *ssa.Return
+	}
+	var offRows []offRow
 	for i, ret := range returnsOf(off) {
 		m, ok := p.durationMinutes(retResult(ret, 0))
 		if !ok {
 			r.bad(rule, fmt.Sprintf("offset#%d", i), p.instrPos(ret), "MidnightOffset is not built from hours and minutes")
 			continue
 		}
-		cls := dayClass(guardsOf(ret.Block()))
+		// one return whose hour (or minute) argument was chosen by the day before: one row per way
+		expanded := false
+		if c, idx := callOf(retResult(ret, 0)); c != nil && idx == 0 && len(c.Common().Args) >= 2 {
+			hs := valueRows(c.Common().Args[0], 0, map[ssa.Value]bool{})
+			ms := valueRows(c.Common().Args[1], 0, map[ssa.Value]bool{})
+			if len(hs)*len(ms) > 1 && len(hs)*len(ms) <= 9 {
+				expanded = true
+				for _, h := range hs {
+					for _, mi := range ms {
+						pl := newPoly()
+						pl.addScaled(polyOf(h.val), 60)
+						pl.addScaled(polyOf(mi.val), 1)
+						gs := append(append(append([]Guard{}, h.guards...), mi.guards...), guardsOf(ret.Block())...)
+						offRows = append(offRows, offRow{pl, gs, ret})
+					}
+				}
+			}
+		}
+		if !expanded {
+			offRows = append(offRows, offRow{m, guardsOf(ret.Block()), ret})
+		}
+	}
+	for _, row := range offRows {
+		m, ret := row.m, row.ret
+		cls := dayClass(row.guards)
 		seen[cls] = true
 		// expect 60*Hour + Minute + shift (through the accessors or the fields themselves)
 		var h, mi int64
